@@ -95,6 +95,34 @@ CHECKS = {
              'equal the analytic derivatives inside each cell; d out / d kernel of Lattice, PWLCalibration, CategoricalCalibration is '
              'the interpolation-weight tensor, free of kernel variables, non-negative and summing to one for Lattice.',
         note='TF autodiff of primitive ops is trusted; only differentiability points.'),
+    'C10': dict(
+        engine=E1, design_ref='DESIGN.md 3/C10',
+        technique='real initializer objects traced and executed by the graph interpreter (exact rationals); RandomUniform -> symbolic samples, symbolic sort network, np.random.shuffle enumerated; z3 for the random initializers, assert_constraints and constraint fixed point',
+        text='For every enumerated layer configuration the initial weights (for ALL uniform samples and ALL shuffles of the random '
+             'initializers) are monotone, inside the initialisation range, pass the layer\'s own assert_constraints and are left '
+             'unchanged by the weight constraint; deterministic initializers are evaluated exactly against the documented shape.',
+        note='Deterministic initializers have no symbolic input: those obligations are ground (interpreter = exact evaluation).'),
+    'C12': dict(
+        engine=E1, design_ref='DESIGN.md 3/C12',
+        technique='symbolic execution of each layer\'s assert_constraints graph; passes(w) = conjunction of its tf.Assert predicates; z3 decides soundness per covered constraint kind and completeness; twin models additionally run on the real code in eager mode',
+        text='For Lattice, RTL, PWLCalibration, Linear, CategoricalCalibration and KFL the solver decides over ALL weight tensors that '
+             'a violation of any covered constraint by more than 2*eps (at any location/unit/pair) makes assert_constraints fail and '
+             'that weights feasible with margin eps pass (eps in {2^-10, 1/4}).',
+        note='Real arithmetic; violations between eps and 2 eps are neither required to pass nor to fail.'),
+    'C14': dict(
+        engine=E1, design_ref='DESIGN.md 3/C14',
+        technique='pairs of traced TF graphs executed symbolically on related symbolic parameters; equality by z3 (rewriter polynomial normal form per lattice cell, QF_NRA otherwise); shared softmax/sigmoid contract stubs',
+        text='KFL equals the dense Lattice built from its factors in every cell; pwl_calibration_fn equals PWLCalibration(learned_interior) '
+             'fed the derived parameters; cdf_fn equals CDF (mean/none); ParallelCombination equals column-wise calibrators; Aggregation '
+             'equals the per-example mean for enumerated row-length patterns; RTL equals gathering its recorded indices into its lattices.',
+        note='Real arithmetic; ragged row lengths are enumerated, values symbolic.'),
+    'C15': dict(
+        engine=E1, design_ref='DESIGN.md 3/C15',
+        technique='bounded symbolic execution of pwl_calibration_fn, cdf_fn and CDF.call (after the real NonNeg constraint) with free-form symbolic parameters; softmax/sigmoid/exp/log contract stubs; z3',
+        text='For every enumerated mode the solver decides over ALL parameter tensors and inputs that pwl_calibration_fn outputs stay in '
+             'bounds, are non-decreasing when increasing, hit clamps, close cycles and map missing inputs to the missing output, that '
+             'the documented call forms trace, and that CDF / cdf_fn outputs are in [0,1] and non-decreasing in every input.',
+        note='Contracts: softmax positive summing to 1 and order preserving; sigmoid in (0,1), exp > 0, log: monotone.'),
 }
 
 NOT_YET = 'check not built yet in this round (work in progress, see DESIGN.md)'
